@@ -34,10 +34,20 @@ def item_name(items, x):
 def src_lines(g, nsrc, rot=0):
     if nsrc == 1:
         return ['>>> print(1 // (2 - %d))' % g]
-    if rot % 2:
+    if rot % 3 == 1:
         # the failing code is a helper defined by the doctest itself: the reported line is the calling line
         return ['>>> def h%d(z):' % g, '...     return 1 // z', '>>> print(h%d(2 - %d))' % (g, g)]
+    if rot % 3 == 2:
+        # cleanup code runs after the raising line: the reported line is still the line that raised
+        return ['>>> try:', '...     print(1 // (2 - %d))' % g, '... finally: y%d = 0' % g]
     return ['>>> y%d = [1,' % g, '...       2]', '>>> print(1 // (2 - %d))' % g][:nsrc]
+
+
+def src_fail_index(nsrc, rot=0):
+    """index (within the source lines of a group) of the line a failure of that group is reported at"""
+    if nsrc == 3 and rot % 3 == 2:
+        return 1
+    return nsrc - 1
 
 
 def want_lines(g, nwant):
